@@ -114,8 +114,12 @@ static void ref_expect(cfg_t *ctx, struct pexp *x)
 		return;
 	}
 	if (T == -1) {
-		if (PSTATE == 0) {
+		if (PSTATE == 0 && pre_level == 0) {
 			x->kind = X_EOF;
+		} else if (PSTATE == 0) {
+			/* the input ends between two items of a section body: its closing brace is missing */
+			x->kind = X_ERR;
+			x->need_diag = 1;
 		} else {
 			x->kind = X_ERR;
 			x->need_diag = 1;
@@ -406,10 +410,15 @@ static void check_section_step(cfg_t *ctx, int accepted)
 	if (!accepted)
 		return;
 	V_ASSERT(n_lex_nested == 1, "[C01] the section body is parsed by a nested invocation up to its closing brace");
+	V_ASSERT(nested_names_file == 1, "[C06] inside a section the context handed to diagnostics names the file that is being read (also for an instance created earlier, by cfg_init() or while another file was read)");
 	if (!(O->flags & CFGF_MULTI)) {
 		V_ASSERT(O->nvalues == 1, "[C01] a single section has exactly one instance");
-		if (NV == 1)
+		if (NV == 1) {
 			V_ASSERT(cfg_opt_getnsec(O, 0) == pre_sec[0], "[C01] a re-opened single section is merged into its existing instance");
+			if (cfg_opt_getnsec(O, 0) == pre_sec[0] && O->subopts != kv_opts)
+				V_ASSERT(pre_sec[0]->opts[0].nvalues == 1 && pre_sec[0]->opts[0].values[0]->number == pre_sec0_a && pre_sec[0]->opts[0].flags == pre_sec0_aflags,
+					 "[C01] re-opening a single section keeps the values it already holds (merge, no re-initialisation)");
+		}
 	} else if (dup >= 0) {
 		V_ASSERT(O->nvalues == pre_nvalues, "[C01] a repeated title replaces that section in place (count unchanged)");
 		for (i = 0; i < NV && i < O->nvalues; i++) {
@@ -429,6 +438,8 @@ static void check_section_step(cfg_t *ctx, int accepted)
 		cfg_t *s = cfg_opt_getnsec(O, at);
 
 		V_ASSERT(s != NULL, "[C01] the new section instance exists");
+		if (s != NULL)
+			V_ASSERT(((s->flags & CFGF_KEYSTRVAL) != 0) == ((O->flags & CFGF_KEYSTRVAL) != 0), "[C01] a new section is a free-form key=value section exactly if it is declared as one (not because its parent is)");
 		if (s != NULL) {
 			cfg_opt_t *a = cfg_getopt_leaf(s, "a");
 			cfg_opt_t *z = cfg_getopt_leaf(s, "z");
@@ -628,6 +639,7 @@ static void check_outcome(cfg_t *ctx, int act_kind, int act_state, struct pstate
 	int T = the_token;
 
 	ref_expect(ctx, &x);
+	V_ASSERT(n_yydestroy == 0, "[C02] the scanner is not torn down while a parse is in progress (whatever the schema's sections are called)");
 
 #if PSTATE <= 9
 #if defined(CHK_C15)
@@ -683,7 +695,7 @@ static void check_outcome(cfg_t *ctx, int act_kind, int act_state, struct pstate
 #if defined(PREV_IS_O) && (KIND == K_DEPR || KIND == K_DEPRDROP)
 	/* the item that just ended assigned a deprecated option: whatever comes next (another item, a comment,
 	 * the closing brace of the section, the end of the input) the option is reported, and dropped if flagged so */
-	if (T != 0 && !(T == '}' && pre_level == 0)) {
+	if (T != 0 && !(T == '}' && pre_level == 0) && !(T == -1 && pre_level > 0)) { /* not where the text is rejected anyway */
 		V_ASSERT(n_err >= 1, "[C01] a deprecated option that was assigned is reported");
 		if (O->flags & CFGF_DROP)
 			V_ASSERT(O->nvalues == 0, "[C01] a deprecated option flagged 'drop' holds no value after the item that assigned it");
